@@ -8,7 +8,7 @@ from fractions import Fraction
 import numpy as np
 from common import emit, payload, rng
 
-from orix.crystal_map import CrystalMap, PhaseList
+from orix.crystal_map import CrystalMap, PhaseList, create_coordinate_arrays
 from orix.quaternion import Rotation
 
 P = payload()
@@ -37,10 +37,35 @@ STEPS_OTHER = [0.1, 0.7, 0.35, 1.3, 0.03, 0.15, 0.2]
 PHASES = [[-1, "not_indexed"], [0, "alpha"], [1, "beta"], [2, "gamma"]]
 
 
+PG = {0: "m-3m", 1: "6/mmm", 2: "mmm"}
+
+
+def _cast(a, spec):
+    """optional coordinate dtype (audit strata): int64 / float32 instead of float64"""
+    if a is None or spec.get("cdtype") is None:
+        return a
+    if spec["cdtype"] == "int":
+        assert np.all(a == np.round(a))
+        return np.round(a).astype(np.int64)
+    return a.astype(np.float32)
+
+
 def coords(spec):
-    """full-size float coordinate arrays (x, y) exactly as a user would build them"""
+    """full-size coordinate arrays (x, y) exactly as a user would build them"""
+    x, y = _coords(spec)
+    return _cast(x, spec), _cast(y, spec)
+
+
+def _coords(spec):
     kind, nr, nc = spec["kind"], spec["nr"], spec["nc"]
     ox, oy, dx, dy = spec["ox"], spec["oy"], spec["dx"], spec["dy"]
+    if spec.get("via") == "cca":       # the library's own helper (what CrystalMap.empty() uses): origin zero
+        if spec.get("cdtype") == "int":
+            dx, dy = int(dx), int(dy)
+        d, _ = create_coordinate_arrays((nr, nc), (dy, dx)) if kind == "2d" else create_coordinate_arrays((nc,), (dx,))
+        return d["x"], d.get("y")
+    if kind == "1dx" and spec.get("consty"):   # row map given with a constant y
+        return ox + np.arange(nc) * dx, np.full(nc, oy)
     if kind == "2d":
         r, c = np.indices((nr, nc))
         return ox + c.ravel() * dx, oy + r.ravel() * dy
@@ -61,8 +86,18 @@ def build(spec):
     q = np.array(spec["rot"], dtype=float).reshape((n, 4) if rpp == 1 else (n, rpp, 4))
     ids_present = sorted(set(int(i) for i in pid if i >= 0))
     names = {i: nm for i, nm in PHASES}
-    pl = PhaseList(names=[names[i] for i in ids_present], ids=ids_present) if ids_present else None
+    if spec.get("pg"):
+        pl = PhaseList(names=[names[i] for i in ids_present], point_groups=[PG[i] for i in ids_present],
+                       ids=ids_present) if ids_present else None
+    else:
+        pl = PhaseList(names=[names[i] for i in ids_present], ids=ids_present) if ids_present else None
+    if spec.get("bare"):               # CrystalMap(rotations) alone: default coordinates, phase ids, phase list
+        xm = CrystalMap(Rotation(q.copy()))
+        return xm, x, y, Rotation(q.copy()).data.reshape(n, -1)
     prop = {}
+    if spec.get("xprops"):
+        for k, v in xprops(spec).items():
+            prop[k] = v.copy()
     if "p" in spec["props"]:
         prop["p"] = np.array(spec["p"], dtype=float)
     if "q" in spec["props"]:
@@ -73,6 +108,14 @@ def build(spec):
     xm = CrystalMap(rotations=Rotation(q.copy()), phase_id=pid.copy(), x=None if x is None else x.copy(),
                     y=None if y is None else y.copy(), phase_list=pl, prop=prop, **kw)
     return xm, x, y, Rotation(q.copy()).data.reshape(n, -1)
+
+
+def xprops(spec):
+    """extra properties of other dtypes / a trailing axis (audit strata), derived from the spec"""
+    n = spec["nr"] * spec["nc"]
+    p = np.array(spec["p"], dtype=float)
+    return {"b": (np.array(spec["q"]) % 3 == 0), "v": np.column_stack([p * 2 + 1, -p]),
+            "f": (p / 4).astype(np.float32)}
 
 
 def rand_spec(kind=None, origin=None, step=None, small=False, single=False):
@@ -164,11 +207,18 @@ def rand_op(size, shape):
     return {"phase": names}
 
 
+def _npi(v, np_kind):
+    return v if (v is None or np_kind is None) else getattr(np, np_kind)(v)
+
+
 def to_key(op):
     if "sel" in op:
+        npk = op.get("np")             # None | "int64" | "intp" | "int32": integers given as NumPy scalars
         ks = []
         for k in op["sel"]:
-            ks.append(k["int"] if "int" in k else slice(*k["sl"]))
+            ks.append(_npi(k["int"], npk) if "int" in k else slice(*[_npi(v, npk) for v in k["sl"]]))
+        if "form" in op:               # audit strata: bare / tuple form chosen by the stratum, not drawn
+            return ks[0] if op["form"] == "bare" else tuple(ks)
         return ks[0] if len(ks) == 1 and R.random() < 0.5 else tuple(ks)
     if "mask" in op:
         return np.array(op["mask"], dtype=bool)
@@ -244,12 +294,27 @@ class Ref:
         self.ids = np.arange(n) if spec["ind"] is None else np.flatnonzero(np.array(spec["ind"]))
         present = sorted(set(int(i) for i in self.pid))
         self.names = {i: nm for i, nm in PHASES if i in present}
+        if spec.get("bare"):           # default phase list: one phase with an empty name
+            self.names = {}
 
     def axis_vals(self, a):
         return (self.R if a == "r" else self.C)[self.ids]
 
     def bbox(self):
         return [(int(self.axis_vals(a).min()), int(self.axis_vals(a).max()) + 1) for a in self.axes]
+
+    def grid(self, vals, fill=np.nan, dtype=float):
+        """per-point values (k,) or (k, m) of the selected points placed at their bounding-box relative
+        (row, col), the fill value elsewhere"""
+        bb = self.bbox()
+        vals = np.asarray(vals)
+        out = np.full(tuple(hi - lo for lo, hi in bb) + vals.shape[1:], fill, dtype=dtype)
+        rel = tuple(self.axis_vals(a) - lo for a, (lo, hi) in zip(self.axes, bb))
+        if rel:
+            out[rel] = vals
+        else:
+            out[...] = vals[0]
+        return out
 
     def is_rect(self):
         return self.ids.size == int(np.prod([hi - lo for lo, hi in self.bbox()])) if self.ids.size else True
@@ -303,6 +368,117 @@ def stratum(spec, ref):
     if any(abs(o) > 0.5 for o in offs):
         return "origin-offset"
     return "plain"
+
+
+def check_extra(xm, ref, spec, strat, rep):
+    """secondary per-point accessors, get_map_data items other than properties and its keyword paths on one
+    non-empty state (audit strata: signatures <site>:<stratum> with the sites below)"""
+    ids = ref.ids
+    k = ids.size
+    pid = ref.pid[ids]
+    rpp = spec["rpp"]
+    shape = tuple(hi - lo for lo, hi in ref.bbox())
+
+    def bad(site, what):
+        fail(f"{site}:{strat}", what, rep)
+
+    def attempt(site, f):
+        try:
+            return f()
+        except Exception as e:  # noqa
+            bad(site, f"raises {type(e).__name__}: {e}")
+            return None
+
+    def same(got, exp):
+        got = np.asarray(got)
+        return got.shape == exp.shape and np.array_equal(got.astype(float), exp.astype(float), equal_nan=True)
+
+    # ---- per-point accessors derived from the masked arrays
+    got = attempt("is_indexed", lambda: xm.is_indexed)
+    if got is not None and not np.array_equal(got, pid != -1):
+        bad("is_indexed", "is_indexed not aligned with ids")
+    got = attempt("is_indexed", lambda: bool(xm.all_indexed))
+    if got is not None and got != bool(np.all(pid != -1)):
+        bad("is_indexed", "all_indexed differs from all(phase_id != -1) of the selected points")
+    # the other access path of each property (check_state reads prop['p'] and the attribute q)
+    if "p" in spec["props"]:
+        got = attempt("prop-path", lambda: xm.p)
+        if got is not None and not np.array_equal(got, ref.p[ids]):
+            bad("prop-path", "float property (attribute access) not aligned with ids")
+    if "q" in spec["props"]:
+        got = attempt("prop-path", lambda: xm.prop["q"])
+        if got is not None and not np.array_equal(got, ref.q[ids]):
+            bad("prop-path", "int property (item access) not aligned with ids")
+    if spec.get("xprops"):
+        for name, full in xprops(spec).items():
+            got = attempt("prop-dtype", lambda: xm.prop[name] if name != "f" else getattr(xm, name))
+            if got is not None and not (got.dtype == full.dtype and np.array_equal(got, full[ids])):
+                bad("prop-dtype", f"property '{name}' (dtype {full.dtype}, shape {full.shape[1:]} per point) not "
+                                  f"aligned with ids")
+    got = attempt("rotations_shape", lambda: (int(xm.rotations_per_point), tuple(xm.rotations_shape)))
+    if got is not None and got != (rpp, tuple(i for i in shape + (rpp,) if i != 1)):
+        bad("rotations_shape", f"(rotations_per_point, rotations_shape) = {got}, expected {rpp} and the bounding "
+                               f"box {shape} + ({rpp},) without 1-dimensions")
+    got = attempt("phases_in_data", lambda: [int(i) for i in xm.phases_in_data.ids])
+    if got is not None and got != sorted(set(int(i) for i in pid)):
+        bad("phases_in_data", f"phases_in_data has ids {got}, the selected points have {sorted(set(pid.tolist()))}")
+    # ---- 2-D output arrays of attributes that are not properties
+    items = [("phase_id", pid), ("id", ids), ("is_indexed", pid != -1)]
+    if ref.x is not None and spec["nc"] > 1:
+        items.append(("x", ref.x[ids]))
+    if ref.y is not None and spec["nr"] > 1:
+        items.append(("y", ref.y[ids]))
+    for name, vals in items:
+        got = attempt("get_map_data-attr", lambda: xm.get_map_data(name))
+        if got is not None and not same(got, ref.grid(vals)):
+            bad("get_map_data-attr", f"get_map_data('{name}') does not place the values of the selected points at "
+                                     f"(row, col) with nan elsewhere")
+    first = ref.rot[ids].reshape(k, rpp, 4)[:, 0]
+    eul = Rotation(first).to_euler()
+    got = attempt("get_map_data-rotations", lambda: xm.get_map_data("rotations"))
+    if got is not None:
+        exp = ref.grid(eul)
+        if got.shape != exp.shape or not np.allclose(got, exp, rtol=0, atol=1e-9, equal_nan=True):
+            bad("get_map_data-rotations", f"get_map_data('rotations') shape {got.shape}: the Euler angles of the first "
+                                          f"rotation of each point are not at (row, col) in shape {exp.shape}")
+    # ---- keyword paths: decimals=, fill_value=None, default fill value for an integer property
+    if "p" in spec["props"]:
+        got = attempt("get_map_data-kw", lambda: xm.get_map_data("p", decimals=1, fill_value=None))
+        if got is not None and not same(got, np.round(ref.grid(ref.p[ids]), 1)):
+            bad("get_map_data-kw", "get_map_data('p', decimals=1, fill_value=None) is not the rounded placement")
+    if "q" in spec["props"]:
+        got = attempt("get_map_data-kw", lambda: xm.get_map_data("q"))
+        if got is not None and not same(got, ref.grid(ref.q[ids])):
+            bad("get_map_data-kw", "get_map_data('q') with the default fill value is not the placement with nan")
+        got = attempt("get_map_data-kw", lambda: xm.get_map_data("q", fill_value=None, decimals=0))
+        if got is not None and not same(got, ref.grid(ref.q[ids])):
+            bad("get_map_data-kw", "get_map_data('q', fill_value=None, decimals=0) is not the placement with nan")
+    # ---- orientations (phases with point groups)
+    if spec.get("pg"):
+        present = sorted(set(int(i) for i in pid))
+        if len(present) > 1:
+            try:
+                xm.orientations
+                bad("orientations", f"orientations of a selection with phases {present} does not raise")
+            except ValueError:
+                pass
+            except Exception as e:  # noqa
+                bad("orientations", f"orientations of a selection with phases {present} raises {type(e).__name__}")
+        elif present[0] >= 0:
+            got = attempt("orientations", lambda: xm.orientations)
+            if got is not None:
+                if got.symmetry.name != PG[present[0]]:
+                    bad("orientations", f"orientations carry the symmetry {got.symmetry.name}, the selected points "
+                                        f"have phase {present[0]} with point group {PG[present[0]]}")
+                if got.shape != (k,) or not np.allclose(got.data, first, rtol=0, atol=1e-12):
+                    bad("orientations", "orientations are not the (first) rotations of the selected points")
+        if -1 not in present:
+            got = attempt("get_map_data-orientations", lambda: xm.get_map_data("orientations"))
+            if got is not None:
+                exp = ref.grid(eul)
+                if got.shape != exp.shape or not np.allclose(got, exp, rtol=0, atol=1e-9, equal_nan=True):
+                    bad("get_map_data-orientations", "get_map_data('orientations') does not place the Euler angles "
+                                                     "of each point at (row, col)")
 
 
 def check_state(xm, ref, spec, strat, site_prefix, rep):
@@ -403,6 +579,7 @@ def check_state(xm, ref, spec, strat, site_prefix, rep):
             ok = False
             fail(f"get_map_data-rgb:{strat}", f"get_map_data(ndarray of shape {rgb.shape}) raises "
                                               f"{type(e).__name__}", rep)
+    check_extra(xm, ref, spec, strat, rep)
     return True
 
 
@@ -439,6 +616,8 @@ def run_case(spec, ops, tag, record=True, full_obs=True):
             s2 = strat
             if kind == "sel" and strat == "plain" and not rect:
                 s2 = "nonrect"
+            if kind == "sel" and op.get("np"):     # integers given as NumPy scalars: own site, stratum = key form
+                site, s2 = "getitem-npint", op["npform"]
             if isinstance(want, str):          # reference rejects the key: implementation may do anything but corrupt
                 oracle_alive = False
             elif exc is not None:
@@ -453,7 +632,14 @@ def run_case(spec, ops, tag, record=True, full_obs=True):
                     oracle_alive = False
                 ref.ids = want
                 if oracle_alive:
-                    if s2 == "nonrect":
+                    if site == "getitem-npint":
+                        if not np.array_equal(new.id, ref.ids):
+                            fail(f"{site}:{s2}", f"key {key!r} selects ids {new.id.tolist()}, the same key with "
+                                                 f"Python integers selects {ref.ids.tolist()}", dict(rep, at=i))
+                            oracle_alive = False
+                        else:
+                            oracle_alive = check_state(new, ref, spec, strat, "getitem-slice", dict(rep, at=i))
+                    elif s2 == "nonrect":
                         oracle_alive = _check_nonrect(new, ref, spec, site, dict(rep, at=i))
                     else:
                         oracle_alive = check_state(new, ref, spec, strat, site, dict(rep, at=i))
@@ -525,10 +711,493 @@ WITNESSES = [
 ]
 
 
+# ------------------------------------------------------------ history generator
+def gen_ops(spec, nops=None, valid=False):
+    """ops generated adaptively from the reference state (sizes / shapes of the current selection);
+    valid=True: drop a key the reference rejects and stop before an empty selection.
+    -> (ops, reference after the ops that the reference accepts)"""
+    if nops is None:
+        nops = R.choice([1, 2, 2, 3, 3, 4, 5, 6])
+    ops = []
+    ref = Ref(spec, *coords(spec))
+    for _ in range(nops):
+        size = ref.ids.size
+        shape = [hi - lo for lo, hi in ref.bbox()] if size else None
+        op = rand_op(size, shape)
+        if shape == []:                          # single point: no axis to index
+            op = {"sel": [rand_key1(1)]} if R.random() < 0.25 else rand_op(size, None)
+        want = ref.apply(op)
+        if valid and (isinstance(want, str) or want.size == 0):
+            continue
+        ops.append(op)
+        if isinstance(want, str):
+            break
+        ref.ids = want
+        if want.size == 0:
+            if R.random() < 0.6:
+                break
+    return ops, ref
+
+
+# ---------------------------------------------------------------- audit strata
+# Entry points / input classes / histories the random histories above never reach.  Every stratum calls the real
+# implementation and compares with the reference `Ref`; the variant is carried by the spec (cdtype, via, consty,
+# bare, pg, xprops), by the op (np, form) or by rep["extra"] (a history shape of its own, replayed by EXTRA[...]).
+def _apply_ops(spec, ops, strat, rep, site="prefix"):
+    """build the map and apply `ops` (all accepted by the reference) -> (root, cur, ref) or None"""
+    xm, x, y, rotdata = build(spec)
+    ref = Ref(spec, x, y, rotdata)
+    cur = xm
+    for i, op in enumerate(ops):
+        want = ref.apply(op)
+        if isinstance(want, str):
+            return None
+        try:
+            cur = cur[to_key(dict(op, form="tuple") if "sel" in op else op)]
+        except Exception as e:  # noqa
+            fail(f"{site}:{strat}", f"selection {op} raises {type(e).__name__}", dict(rep, at=i))
+            return None
+        ref.ids = want
+        if not np.array_equal(cur.id, ref.ids):
+            fail(f"{site}:{strat}", f"selected ids {cur.id.tolist()} != reference {ref.ids.tolist()}", dict(rep, at=i))
+            return None
+    return xm, cur, ref
+
+
+def _fork(ref, op):
+    r2 = Ref(ref.spec, ref.x, ref.y, ref.rot)
+    r2.ids = ref.ids.copy()
+    want = r2.apply(op)
+    if isinstance(want, str):
+        return None
+    r2.ids = want
+    return r2
+
+
+def extra_branch(spec, ops, tag):
+    """two selections a = parent[k1], b = parent[k2] of the same parent (the last two ops), observed
+    interleaved: the shared property dictionary must be re-synchronised whichever map was read last"""
+    rep = {"spec": spec, "ops": ops, "tag": tag, "extra": "branch"}
+    st("x/branch")
+    got = _apply_ops(spec, ops[:-2], "branch", rep)
+    if got is None:
+        return
+    root, parent, rp = got
+    ra, rb = _fork(rp, ops[-2]), _fork(rp, ops[-1])
+    if ra is None or rb is None:
+        return
+    rroot = Ref(spec, rp.x, rp.y, rp.rot)
+    try:
+        a = parent[to_key(dict(ops[-2], form="tuple") if "sel" in ops[-2] else ops[-2])]
+        pa = a.prop                                # a held reference, then the sibling is created and read
+        b = parent[to_key(dict(ops[-1], form="tuple") if "sel" in ops[-1] else ops[-1])]
+        pb = b.prop
+    except Exception as e:  # noqa
+        fail("getitem:branch", f"sibling selection raises {type(e).__name__}", rep)
+        return
+    for nm, m, r in (("b", b, rb), ("a", a, ra), ("parent", parent, rp), ("b", b, rb), ("root", root, rroot),
+                     ("a", a, ra)):
+        # a property is read through another map first; the next read of m -- by attribute, by get_map_data
+        # and (in check_state) by item -- must see the points of m whatever was read last
+        other = b if m is a else a
+        for name, full in (("p", r.p), ("q", r.q)):
+            if name not in spec["props"]:
+                continue
+            other.prop[name]
+            try:
+                got = getattr(m, name)
+                if not np.array_equal(got, full[r.ids]):
+                    fail("prop-path:branch", f"attribute '{name}' of map {nm} read after the same property of a "
+                                             f"sibling selection is not aligned with the ids of {nm}", rep)
+                    return
+                other.prop[name]
+                if r.ids.size:
+                    got = m.get_map_data(name, fill_value=-7)
+                    if not np.array_equal(got, r.grid(full[r.ids], fill=-7, dtype=full.dtype)):
+                        fail("get_map_data:branch", f"get_map_data('{name}') of map {nm} called after the same "
+                                                    f"property of a sibling selection was read is misplaced", rep)
+                        return
+            except Exception as e:  # noqa
+                fail("prop-path:branch", f"reading '{name}' of map {nm} after a sibling's raises {type(e).__name__}", rep)
+                return
+        if not check_state(m, r, spec, "branch", f"getitem-{nm}", rep):
+            return
+    del pa, pb
+
+
+def extra_deepcopy(spec, ops, tag):
+    """deepcopy() in the history: after every selection (and a property read through it) the selection and the
+    source are deep-copied; the copies must be equal to the reference state and the history continues on the
+    copy; writing into the copy must not reach the source"""
+    rep = {"spec": spec, "ops": ops, "tag": tag, "extra": "deepcopy"}
+    st("x/deepcopy")
+    xm, x, y, rotdata = build(spec)
+    ref = Ref(spec, x, y, rotdata)
+    rroot = Ref(spec, x, y, rotdata)
+    cur = xm
+    for i, op in enumerate(ops):
+        want = ref.apply(op)
+        if isinstance(want, str):
+            return
+        try:
+            cur = cur[to_key(dict(op, form="tuple") if "sel" in op else op)]
+        except Exception as e:  # noqa
+            fail("getitem:deepcopy", f"selection {op} on a deep copy raises {type(e).__name__}", dict(rep, at=i))
+            return
+        ref.ids = want
+        if not check_state(cur, ref, spec, "deepcopy", "getitem", dict(rep, at=i)):
+            return
+        if "p" in spec["props"]:
+            cur.prop["p"]                          # the shared property dictionary now carries the selection's mask
+        d = dsrc = None
+        try:
+            d = cur.deepcopy()
+        except Exception as e:  # noqa
+            fail("deepcopy:selection", f"deepcopy() of a selection (ids {ref.ids.tolist()}) raises "
+                                       f"{type(e).__name__}: {e}", dict(rep, at=i))
+        if "p" in spec["props"]:
+            cur.prop["p"]
+        try:
+            dsrc = xm.deepcopy()
+        except Exception as e:  # noqa
+            fail("deepcopy:source", f"deepcopy() of the source map raises {type(e).__name__} after a property of "
+                                    f"its selection (ids {ref.ids.tolist()}) was read: {e}", dict(rep, at=i))
+        if d is None or dsrc is None:
+            return
+        if not (check_state(d, ref, spec, "deepcopy", "copy", dict(rep, at=i))
+                and check_state(dsrc, rroot, spec, "deepcopy", "copy-source", dict(rep, at=i))):
+            return
+        if ref.ids.size and "p" in spec["props"]:
+            d.prop["p"] = np.full(ref.ids.size, -1234.5)     # write into the copy ...
+            if not np.array_equal(xm.prop["p"], rroot.p[rroot.ids]) or not np.array_equal(cur.prop["p"],
+                                                                                          rroot.p[ref.ids]):
+                fail("deepcopy:shared", "writing a property of a deep copy changed the source", dict(rep, at=i))
+                return
+            d.prop["p"] = rroot.p[ref.ids]
+        if ref.ids.size:                                     # ... and in place (the phase_id setter)
+            d.phase_id = ref.pid[ref.ids][::-1]
+            if not np.array_equal(xm.phase_id, rroot.pid[rroot.ids]) or not np.array_equal(cur.phase_id,
+                                                                                           ref.pid[ref.ids]):
+                fail("deepcopy:shared", "writing phase ids of a deep copy changed the source", dict(rep, at=i))
+                return
+            d.phase_id = ref.pid[ref.ids]
+        cur = d
+        if ref.ids.size == 0:
+            return
+
+
+PROPSET_MODES = ["existing-item", "existing-attr", "new-item", "scalar", "float-into-int", "then-select"]
+
+
+def extra_propset(spec, ops, tag, mode):
+    """writing a property through a selection (CrystalMapProperties.__setitem__ applies the same mask): the
+    values land at the selected original points, everything else is unchanged, later selections stay aligned"""
+    rep = {"spec": spec, "ops": ops, "tag": tag, "extra": "propset:" + mode}
+    st("x/propset/" + mode)
+    got = _apply_ops(spec, ops, "propset", rep)
+    if got is None:
+        return
+    root, cur, ref = got
+    ids = ref.ids
+    k, n = ids.size, ref.n
+    if k == 0:
+        return
+    rroot = Ref(spec, ref.x, ref.y, ref.rot)
+    rroot.p, rroot.q = ref.p, ref.q                # the two references share the (updated) property arrays
+    newf = np.array([-500.25 - 3 * i for i in range(k)])
+    newi = np.array([7000 + 11 * i for i in range(k)])
+    extra = None
+    try:
+        if mode in ("existing-item", "then-select"):
+            cur.prop["p"] = newf
+            ref.p = rroot.p = ref.p.copy(); ref.p[ids] = newf
+        elif mode == "existing-attr":
+            cur.q = newi
+            ref.q = rroot.q = ref.q.copy(); ref.q[ids] = newi
+        elif mode == "new-item":
+            cur.prop["w"] = newi
+            extra = np.zeros(n, dtype=newi.dtype); extra[ids] = newi
+        elif mode == "scalar":
+            cur.prop["p"] = 7.5
+            ref.p = rroot.p = ref.p.copy(); ref.p[ids] = 7.5
+        elif mode == "float-into-int":
+            cur.prop["q"] = newf
+            ref.q = rroot.q = ref.q.astype(float); ref.q[ids] = newf
+    except Exception as e:  # noqa
+        fail(f"prop-set:{mode}", f"setting a property through a selection (ids {ids.tolist()}) raises "
+                                 f"{type(e).__name__}: {e}", rep)
+        return
+    spec2 = spec
+    if mode == "float-into-int":                   # q is a float property now: check_state builds an int grid
+        spec2 = dict(spec, props=["p"])
+        for m, r in ((cur, ref), (root, rroot)):
+            if not np.array_equal(m.q, r.q[r.ids]):
+                fail(f"prop-set:{mode}", "float values written into an int property through a selection are not at "
+                                         "the selected points / other points changed", rep)
+                return
+    if extra is not None:
+        for m, r in ((cur, ref), (root, rroot)):
+            try:
+                if not np.array_equal(m.prop["w"], extra[r.ids]) or not np.array_equal(m.w, extra[r.ids]):
+                    fail(f"prop-set:{mode}", "a property added through a selection is not zero outside / the given "
+                                             "values at the selected points", rep)
+                    return
+            except Exception as e:  # noqa
+                fail(f"prop-set:{mode}", f"reading the added property raises {type(e).__name__}", rep)
+                return
+    if not (check_state(cur, ref, spec2, "propset", "after-set", rep)
+            and check_state(root, rroot, spec2, "propset", "after-set-source", rep)):
+        return
+    if mode == "then-select":                      # one more selection after the write
+        m = np.array([(i % 3) != 1 for i in range(k)])
+        sub = cur[m]
+        ref.ids = ids[m]
+        check_state(sub, ref, spec2, "propset", "select-after-set", rep)
+
+
+def extra_plot(spec, ops, tag):
+    """the plotting wrapper: CrystalMap.plot() / CrystalMapPlot.plot_map() of a selection; the image array is
+    the 2-D output array (property: placement at (row, col); phase map: colour of each point's phase, white fill)"""
+    rep = {"spec": spec, "ops": ops, "tag": tag, "extra": "plot"}
+    st("x/plot")
+    import matplotlib
+    matplotlib.use("Agg")
+    import matplotlib.pyplot as plt
+    got = _apply_ops(spec, ops, "plot", rep)
+    if got is None:
+        return
+    root, cur, ref = got
+    ids = ref.ids
+    shape = tuple(hi - lo for lo, hi in ref.bbox())
+    if len(shape) != 2 or min(shape) < 2:          # imshow needs a 2-D image (thin selections are squeezed to 1-D)
+        return
+    fig = None
+    try:
+        fig = cur.plot("p", return_figure=True, scalebar=False)
+        img = np.asarray(fig.axes[0].images[0].get_array(), dtype=float)
+        plt.close(fig)
+        exp = ref.grid(ref.p[ids])
+        if img.shape != exp.shape or not np.array_equal(img, exp, equal_nan=True):
+            fail("plot:value", f"plot('p') of a selection shows an image of shape {img.shape} that is not the "
+                               f"placement of the property at (row, col) in shape {exp.shape}", rep)
+        fig = cur.plot(return_figure=True, scalebar=False, legend=False)
+        img = np.asarray(fig.axes[0].images[0].get_array(), dtype=float)
+        plt.close(fig)
+        col = np.array([cur.phases[int(i)].color_rgb for i in ref.pid[ids]])
+        exp = ref.grid(col, fill=1.0)
+        if img.shape != exp.shape or not np.allclose(img, exp, rtol=0, atol=1e-12):
+            fail("plot:phase", "the phase map of a selection does not show the colour of each point's phase at "
+                               "(row, col) and white elsewhere", rep)
+        fig = cur.plot(ref.p[ids] * 2, overlay="p", return_figure=True, scalebar=False)
+        img = np.asarray(fig.axes[0].images[0].get_array().data, dtype=float)
+        plt.close(fig)
+        if img.shape != shape + (3,) and img.shape != shape + (4,):
+            fail("plot:overlay", f"plot(array, overlay='p') of a selection shows an image of shape {img.shape}, map "
+                                 f"shape {shape}", rep)
+    except Exception as e:  # noqa
+        if fig is not None:
+            plt.close(fig)
+        fail("plot:raises", f"plotting a selection of shape {shape} raises {type(e).__name__}: {e}", rep)
+
+
+EXTRA = {"branch": extra_branch, "deepcopy": extra_deepcopy, "plot": extra_plot}
+for _m in PROPSET_MODES:
+    EXTRA["propset:" + _m] = (lambda spec, ops, tag, _m=_m: extra_propset(spec, ops, tag, _m))
+
+
+def np_variant(ops, npk, form):
+    """the last slice/int op of `ops` with its integers as NumPy scalars, in the given key form"""
+    ops = [dict(o) for o in ops]
+    op = ops[-1]
+    ints = ["int" in k for k in op["sel"]]
+    if form == "bare" and not (len(ints) == 1 and ints[0]):
+        return None
+    if form == "tuple-ints" and not all(ints):
+        return None
+    if form == "tuple-mixed" and not (any(ints) and not all(ints)):
+        return None
+    if form == "slice-bounds" and (any(ints) or all(v is None for k in op["sel"] for v in k["sl"])):
+        return None
+    op.update(np=npk, npform=form, form="bare" if form == "bare" else "tuple")
+    return ops
+
+
+def run_extras():
+    origins = ["zero", "within-half", "offset", "half-step"]
+    # (1) coordinate / constructor variants run through the full oracle of run_case
+    for k in range(36):
+        var = ["int", "int-cca", "float-cca", "f32", "consty", "bare"][k % 6]
+        kind = ["2d", "1dx", "2d", "1dy", "2d", "1dx"][(k // 6) % 6]
+        if var == "consty" or var == "bare":
+            kind = "1dx"
+        if var.endswith("cca") and kind == "1dy":
+            kind = "2d"
+        spec = rand_spec(kind=kind, origin="zero" if var.endswith("cca") or var == "bare" else
+                         R.choice(["offset", "offset", "zero", "within-half"]))
+        if var in ("int", "int-cca"):
+            spec["dx"], spec["dy"] = float(R.choice([1, 2, 3, 5])), float(R.choice([1, 2, 3, 5]))
+            spec["ox"] = 0.0 if var == "int-cca" else float(R.choice([0, 3, -2, 7]) * spec["dx"] + R.choice([0, 1]))
+            spec["oy"] = 0.0 if var == "int-cca" else float(R.choice([0, 3, -2, 7]) * spec["dy"])
+            spec["cdtype"] = "int"
+        if var.endswith("cca"):
+            spec["via"] = "cca"
+        if var == "f32":
+            spec["cdtype"] = "f32"
+        if var == "consty":
+            spec["consty"] = True
+            spec["oy"] = R.choice([0.0, 2.5, -1.0])
+        if var == "bare":
+            spec.update(bare=True, cdtype="int", ox=0.0, dx=1.0, pid=[0] * (spec["nr"] * spec["nc"]), props=[],
+                        ind=None)
+        if spec.get("via") == "cca":               # the helper against the grid it documents: x = col*dx, y = row*dy
+            xh, yh = coords(spec)
+            xe, ye = coords(dict(spec, via=None))
+            if not (np.array_equal(xh, xe) and xh.dtype.kind == xe.dtype.kind and (
+                    (yh is None and ye is None) or (yh is not None and ye is not None and np.array_equal(yh, ye)
+                                                    and yh.dtype.kind == ye.dtype.kind))):
+                fail("coords:cca", f"create_coordinate_arrays gives x={xh.tolist()}, y={None if yh is None else yh.tolist()}"
+                                   f" for shape ({spec['nr']}, {spec['nc']}) and steps (dy, dx) = ({spec['dy']}, "
+                                   f"{spec['dx']})", {"spec": spec, "ops": [], "tag": f"xcoords{k}:{var}"})
+        ops, _ = gen_ops(spec)
+        st("x/coords/" + var)
+        run_case(spec, ops, f"xcoords{k}:{var}", record=False)
+    # (2) x and y origins of DIFFERENT modes (the random maps draw one mode for both axes)
+    pairs = [(a, b) for a in origins for b in origins if a != b]
+    for k, (mx, my) in enumerate(pairs + pairs):
+        spec = rand_spec(kind="2d", origin=mx)
+        s2 = rand_spec(kind="2d", origin=my)
+        if mx != "zero" and spec["ox"] == 0.0:
+            spec["ox"] = {"within-half": 0.25, "offset": 2.0, "half-step": 0.5}[mx] * spec["dx"]
+        oy = s2["oy"] if (my == "zero" or s2["oy"] != 0.0) else {"within-half": -0.4, "offset": -3.0,
+                                                                  "half-step": 1.5}[my] * s2["dy"]
+        spec["oy"], spec["dy"], spec["origin"] = oy, s2["dy"], mx + "/" + my
+        ops, _ = gen_ops(spec)
+        st(f"x/mixed-origin/{mx}/{my}")
+        run_case(spec, ops, f"xmixed{k}", record=False)
+    # (3) larger maps (indices up to 40: float rounding of (c - c0)/step further from the origin)
+    for k in range(6):
+        spec = rand_spec(kind="2d", origin=["offset", "within-half", "half-step"][k % 3], step=["other", "dyadic"][k % 2])
+        big = rand_spec(kind="2d", origin="zero")
+        nr, nc = R.randint(15, 40), R.randint(15, 40)
+        n = nr * nc
+        spec.update(nr=nr, nc=nc, pid=[R.choice([-1, 0, 1]) for _ in range(n)], rpp=1,
+                    p=[round(R.uniform(-50, 50), 2) + 0.001 * i for i in range(n)], q=[R.randint(0, 900) for _ in range(n)],
+                    ind=None, props=["p", "q"])
+        rot = np.array([[R.gauss(0, 1) for _ in range(4)] for _ in range(n)])
+        spec["rot"] = (rot / np.linalg.norm(rot, axis=1)[:, None]).reshape(-1).tolist()
+        del big
+        ops, _ = gen_ops(spec, nops=3)
+        st("x/large")
+        run_case(spec, ops, f"xlarge{k}", record=False)
+    # (4) phases with point groups (orientations) and properties of other dtypes / with a trailing axis
+    for k in range(40):
+        spec = rand_spec()
+        spec["pg"] = True
+        spec["xprops"] = k % 2 == 0
+        if k % 4 == 1:                             # a single indexed phase: orientations of every state
+            spec["pid"] = [k % 3] * len(spec["pid"])
+        ops, _ = gen_ops(spec)
+        st("x/pg" + ("+xprops" if spec["xprops"] else ""))
+        run_case(spec, ops, f"xpg{k}", record=False)
+    # (5) integers given as NumPy scalars: bare key, tuple of integers, tuple with a slice, slice bounds
+    forms = [("int64", "bare"), ("int64", "tuple-ints"), ("int64", "tuple-mixed"), ("int64", "slice-bounds"),
+             ("intp", "bare"), ("int32", "tuple-ints"), ("int32", "tuple-mixed"), ("int32", "slice-bounds")]
+    done = {f: 0 for f in forms}
+    tries = 0
+    while min(done.values()) < 4 and tries < 800:
+        tries += 1
+        npk, form = min(forms, key=lambda f: (done[f], forms.index(f)))
+        spec = rand_spec(kind="2d" if form == "tuple-mixed" else R.choice(["2d", "2d", "1dx", "1dy"]))
+        ops, ref = gen_ops(spec, nops=R.choice([0, 1, 2]), valid=True)
+        if ref.ids.size == 0:
+            continue
+        shape = [hi - lo for lo, hi in ref.bbox()]
+        nd = len(shape)
+        if nd == 0 or (form == "tuple-mixed" and nd < 2):
+            continue
+
+        def one(i, want_int):
+            if want_int:
+                return {"int": R.randint(-shape[i], shape[i] - 1)}
+            a = R.randint(0, shape[i] - 1)
+            return {"sl": [a, R.randint(a + 1, shape[i]), R.choice([None, None, 2])]}
+        if form == "bare":
+            sel = [one(0, True)]
+        elif form == "tuple-ints":
+            sel = [one(i, True) for i in range(R.choice([nd, 1]))]
+        elif form == "tuple-mixed":
+            w = R.randrange(2)
+            sel = [one(i, i == w) for i in range(2)]
+        else:
+            sel = [one(i, False) for i in range(R.choice([nd, 1]))]
+        last = {"sel": sel}
+        if isinstance(ref.apply(last), str):
+            continue
+        v = np_variant(ops + [last], npk, form)
+        if v is None:
+            continue
+        done[(npk, form)] += 1
+        st(f"x/npint/{form}/{npk}")
+        run_case(spec, v, f"xnpint:{form}:{npk}:{done[(npk, form)]}", record=False)
+    # (6) histories of another shape: siblings, deepcopy, property writes, the plotting wrapper
+    for k in range(24):
+        spec = rand_spec()
+        ops, ref = gen_ops(spec, nops=R.choice([0, 1, 2]), valid=True)
+        sib = []
+        for _ in range(2):
+            for _try in range(20):
+                size = ref.ids.size
+                op = rand_op(size, [hi - lo for lo, hi in ref.bbox()] or None)
+                w = _fork(ref, op)
+                if w is not None and w.ids.size:
+                    sib.append(op)
+                    break
+        if len(sib) == 2:
+            extra_branch(spec, ops + sib, f"xbranch{k}")
+    for k in range(24):
+        spec = rand_spec()
+        if k % 3 != 2:
+            spec["props"] = ["p", "q"]
+        if k % 4 == 0:
+            spec["ind"] = None
+        ops, _ = gen_ops(spec, nops=R.choice([1, 2, 3]), valid=True)
+        if ops:
+            extra_deepcopy(spec, ops, f"xdeepcopy{k}")
+    for k in range(36):
+        spec = rand_spec()
+        spec["props"] = ["p", "q"]
+        ops, _ = gen_ops(spec, nops=R.choice([1, 1, 2, 3]), valid=True)
+        extra_propset(spec, ops, f"xpropset{k}", PROPSET_MODES[k % len(PROPSET_MODES)])
+    nplot = 0
+    for k in range(80):
+        if nplot >= 12:
+            break
+        spec = rand_spec(kind="2d")
+        spec["props"] = ["p", "q"]
+        ops, ref = gen_ops(spec, nops=R.choice([1, 2]), valid=True)
+        if k % 2 == 0 and ref.ids.size:            # a selection from which the lowest phase id is absent
+            present = sorted(set(int(i) for i in ref.pid[ref.ids]))
+            if len(present) >= 2:
+                op = {"phase": [dict((i, nm) for i, nm in PHASES)[i] for i in present[1:]]}
+                w = _fork(ref, op)
+                if w is not None and w.ids.size:
+                    ops, ref = ops + [op], w
+        if ref.ids.size == 0:
+            continue
+        shape = [hi - lo for lo, hi in ref.bbox()]
+        if min(shape) < 2:
+            continue
+        nplot += 1
+        extra_plot(spec, ops, f"xplot{k}")
+
+
 # --------------------------------------------------------------------- main
 if ONLY is not None:
     for c in ONLY:
-        run_case(c["spec"], c["ops"], c.get("tag", "replay"))
+        if c.get("extra"):
+            EXTRA[c["extra"]](c["spec"], c["ops"], c.get("tag", "replay"))
+        else:
+            run_case(c["spec"], c["ops"], c.get("tag", "replay"))
 else:
     for name, spec, ops, sig in WITNESSES:
         n0 = len(fails)
@@ -536,25 +1205,9 @@ else:
         witness_status[name] = {"sig": sig, "passes": len(fails) == n0}
     for k in range(N):
         spec = rand_spec(single=R.random() < 0.04)
-        nops = R.choice([1, 2, 2, 3, 3, 4, 5, 6])
-        ops = []
-        ref = Ref(spec, *coords(spec))
-        # generate ops adaptively from the reference state (sizes / shapes of the current selection)
-        for _ in range(nops):
-            size = ref.ids.size
-            shape = [hi - lo for lo, hi in ref.bbox()] if size else None
-            op = rand_op(size, shape)
-            if shape == []:                          # single point: no axis to index
-                op = {"sel": [rand_key1(1)]} if R.random() < 0.25 else rand_op(size, None)
-            ops.append(op)
-            want = ref.apply(op)
-            if isinstance(want, str):
-                break
-            ref.ids = want
-            if want.size == 0:
-                if R.random() < 0.6:
-                    break
+        ops, _ = gen_ops(spec)
         run_case(spec, ops, f"rand{k}")
+    run_extras()
     if EXH:
         # bounded-exhaustive: small maps x all op sequences up to length 3 over a small alphabet
         for (kind, nr, nc) in [("2d", 2, 2), ("2d", 2, 3), ("2d", 3, 2), ("2d", 3, 3), ("1dx", 1, 3), ("1dx", 1, 4)]:
